@@ -27,12 +27,14 @@ from . import packages as pk
 
 PID = 'C19'
 RULE = ('cases = one fit output file each (kind fitter/direct, 1..4 records, stored predicted fluxes all/none/mixed, '
-        'record sizes varied by keep()); every case cuts its file at every offset (thorough) or at every offset of a small '
+        'record sizes varied by keep() including records with zero kept fits at the first / a middle / the last position and '
+        'consecutively); every case cuts its file at every offset (thorough) or at every offset of a small '
         'file / ~400 sampled + all frame boundaries +-1 of a larger file (quick); a case is non-trivial when its offsets '
         'include a cut inside a record; distinct = distinct canonical hash of the generated file description')
 REQUIRED_BRANCHES = ['open_error', 'iter_error', 'end_at_record_boundary', 'end_inside_record', 'offset_0',
                      'with_model_fluxes', 'without_model_fluxes', 'records_1', 'records_2', 'records_3', 'records_4',
-                     'fitter', 'direct', 'yielded_1', 'yielded_2', 'yielded_3']
+                     'fitter', 'direct', 'yielded_1', 'yielded_2', 'yielded_3',
+                     'zero_fit_first', 'zero_fit_middle', 'zero_fit_last', 'zero_fit_consecutive', 'complete_file']
 ASSUMPTIONS = ['CPython\'s unpickler is a deterministic function of the bytes it consumes (values are not modelled, only framing)',
                'the pickles are protocol 2 as written by FitInfoFile.write (opcode table of protocols 0-2)']
 EXHAUSTIVE = {'quick': False, 'thorough': True}
@@ -56,7 +58,13 @@ def gen_case(rng, directed=None):
     convmode = directed.get('conv') or rng.choice(['all', 'none', 'mixed'])
     conv = [dict(all=True, none=False).get(convmode, rng.random() < 0.5) for _ in range(nrec)]
     small = directed.get('small', rng.random() < 0.3)
-    case = dict(kind=kind, nrec=nrec, conv=conv, oseed=rng.randrange(1 << 30))
+    # records with zero kept fits (keep(('N', 0)) or an absolute chi^2 cut below the best fit): None | 'N0' | 'C'
+    if 'zero' in directed:
+        zero = list(directed['zero'])
+    else:
+        pz = rng.choice([0., 0., 0.25, 0.5])
+        zero = [rng.choice(['N0', 'C']) if rng.random() < pz else None for _ in range(nrec)]
+    case = dict(kind=kind, nrec=nrec, conv=conv, zero=zero, oseed=rng.randrange(1 << 30))
     if kind == 'fitter':
         nb = rng.randint(2, 4)
         nm = rng.randint(2, 4) if small else rng.randint(3, 12)
@@ -105,10 +113,18 @@ def gen_case(rng, directed=None):
 
 
 def gen_cases(seed, tier):
-    directed = [dict(kind='direct', nrec=1, conv='all', small=True), dict(kind='direct', nrec=2, conv='none', small=True),
-                dict(kind='direct', nrec=3, conv='mixed', small=True), dict(kind='direct', nrec=4, conv='all', small=True),
-                dict(kind='fitter', nrec=1, conv='none', small=True), dict(kind='fitter', nrec=2, conv='all', small=False),
-                dict(kind='fitter', nrec=3, conv='all', small=False), dict(kind='fitter', nrec=4, conv='none', small=False)]
+    Z = [None] * 4
+    directed = [dict(kind='direct', nrec=1, conv='all', small=True, zero=Z[:1]), dict(kind='direct', nrec=2, conv='none', small=True, zero=Z[:2]),
+                dict(kind='direct', nrec=3, conv='mixed', small=True, zero=Z[:3]), dict(kind='direct', nrec=4, conv='all', small=True, zero=Z),
+                dict(kind='fitter', nrec=1, conv='none', small=True, zero=Z[:1]), dict(kind='fitter', nrec=2, conv='all', small=False, zero=Z[:2]),
+                dict(kind='fitter', nrec=3, conv='all', small=False, zero=Z[:3]), dict(kind='fitter', nrec=4, conv='none', small=False, zero=Z),
+                # records with zero kept fits at every position, with and without predicted fluxes
+                dict(kind='direct', nrec=3, conv='all', small=True, zero=['N0', None, None]),
+                dict(kind='direct', nrec=4, conv='none', small=True, zero=[None, 'C', None, None]),
+                dict(kind='direct', nrec=3, conv='all', small=True, zero=[None, None, 'C']),
+                dict(kind='direct', nrec=4, conv='mixed', small=True, zero=[None, 'N0', 'C', None]),
+                dict(kind='fitter', nrec=4, conv='all', small=True, zero=[None, 'C', None, None]),
+                dict(kind='fitter', nrec=3, conv='none', small=True, zero=['N0', 'N0', None])]
     for i in range(N[tier]):
         rng = case_rng(seed, PID, i)
         c = gen_case(rng, directed[i] if i < len(directed) else None)
@@ -120,6 +136,16 @@ def gen_cases(seed, tier):
 
 def _f(x):
     return float(x)   # 'nan' / 'inf' strings of the JSON case -> floats
+
+
+def _keep_zero(info, z):
+    """reduce a record to zero kept fits the way a user's output_format does"""
+    if z == 'N0':
+        info.keep(('N', 0))
+    elif z == 'C':
+        info.keep(('C', -1.))      # absolute chi^2 cut below every (non-negative) chi^2
+    if z and len(info.chi2) != 0:
+        raise RuntimeError('harness self-check: keep() left %d fits in a record meant to be empty' % len(info.chi2))
 
 
 def build_infos(case, d):
@@ -139,22 +165,24 @@ def build_infos(case, d):
             pk.write_convolved(md, fn, w, names, flux, [[0.] * len(r) for r in flux], apertures_au=case['apertures_au'])
         ext = pk.make_extinction(case['tab_w'], case['tab_chi'])
         fitter = pk.make_fitter(md, fnames, [1.] * len(fnames), ext, case['av'], distance_range_kpc=(1., 2.))
-        for s, conv in zip(case['sources'], case['conv']):
+        for s, conv, z in zip(case['sources'], case['conv'], case.get('zero') or [None] * case['nrec']):
             src = pk.make_source(s['name'], s['flags'], s['flux'], s['err'], x=1.5, y=-2.25)
             with common.quiet():
                 info = fitter.fit(src)
             if not conv:
                 info.model_fluxes = None      # what fit() does without output_convolved
             info.keep(('N', s['keep']))
+            _keep_zero(info, z)
             infos.append(info)
     else:
         ext = pk.make_extinction(case['tab_w'], case['tab_chi'])
         filters = [dict(name=f['name'], aperture_arcsec=f['aperture_arcsec'], wav=f['wav'] * u.micron)
                    for f in case['filters']]
-        for r, conv in zip(case['recs'], case['conv']):
+        for r, conv, z in zip(case['recs'], case['conv'], case.get('zero') or [None] * case['nrec']):
             info = pk.make_fitinfo(r['names'], [_f(c) for c in r['chi2']], av=r['av'], sc=r['sc'], flags=r['flags'],
                                    source_name=r['source_name'], model_fluxes=r['fluxes'] if conv else None,
                                    meta=(case['model_dir'], filters, ext))
+            _keep_zero(info, z)
             infos.append(info)
     return infos
 
@@ -305,6 +333,17 @@ def sweep(case, with_model=True):
             branches.add('with_model_fluxes')
         if not all(case['conv']):
             branches.add('without_model_fluxes')
+        zero = [bool(z) for z in (case.get('zero') or [None] * k)]
+        if zero[0] and k > 1:
+            branches.add('zero_fit_first')
+        if any(zero[1:-1]):
+            branches.add('zero_fit_middle')
+        if zero[-1] and k > 1:
+            branches.add('zero_fit_last')
+        if any(a and b for a, b in zip(zero, zero[1:])):
+            branches.add('zero_fit_consecutive')
+        if n in offsets:
+            branches.add('complete_file')
         model = model_scan(data, offsets) if with_model else None
         tp = os.path.join(d, 'trunc.fitinfo')
         shutil.copy(path, tp)
@@ -405,6 +444,8 @@ def shrink(case):
         c = dict(cur)
         c['nrec'] = cur['nrec'] - 1
         c['conv'] = cur['conv'][:c['nrec']]
+        if cur.get('zero'):
+            c['zero'] = cur['zero'][:c['nrec']]
         if cur['kind'] == 'fitter':
             c['sources'] = cur['sources'][:c['nrec']]
         else:
